@@ -17,8 +17,6 @@ use chrono::NaiveDateTime;
 use human_time::ToHumanTimeString;
 use rand::Rng;
 use serde::ser::{Serialize, Serializer};
-#[cfg(unix)]
-use xattr::FileExt;
 
 use crate::fileinfo::FileInfo;
 use crate::util::{capitalize, error_exit, format_date, format_datetime};
@@ -875,10 +873,9 @@ pub fn get_value(
         #[cfg(unix)]
         Some(Function::HasXattr) => {
             if let Some(entry) = entry {
-                if let Ok(file) = File::open(entry.path()) {
-                    if let Ok(xattr) = file.get_xattr(&function_arg) {
-                        return Variant::from_bool(xattr.is_some());
-                    }
+                // the entry's own attribute, read by path: a link is not followed, nothing is opened
+                if let Ok(xattr) = xattr::get(entry.path(), &function_arg) {
+                    return Variant::from_bool(xattr.is_some());
                 }
             }
 
@@ -887,11 +884,9 @@ pub fn get_value(
         #[cfg(unix)]
         Some(Function::Xattr) => {
             if let Some(entry) = entry {
-                if let Ok(file) = File::open(entry.path()) {
-                    if let Ok(Some(xattr)) = file.get_xattr(&function_arg) {
-                        if let Ok(value) = String::from_utf8(xattr) {
-                            return Variant::from_string(&value);
-                        }
+                if let Ok(Some(xattr)) = xattr::get(entry.path(), &function_arg) {
+                    if let Ok(value) = String::from_utf8(xattr) {
+                        return Variant::from_string(&value);
                     }
                 }
             }
@@ -901,10 +896,8 @@ pub fn get_value(
         #[cfg(target_os = "linux")]
         Some(Function::HasCapabilities) => {
             if let Some(entry) = entry {
-                if let Ok(file) = File::open(entry.path()) {
-                    if let Ok(caps_xattr) = file.get_xattr("security.capability") {
-                        return Variant::from_bool(caps_xattr.is_some());
-                    }
+                if let Ok(caps_xattr) = xattr::get(entry.path(), "security.capability") {
+                    return Variant::from_bool(caps_xattr.is_some());
                 }
             }
 
@@ -913,11 +906,9 @@ pub fn get_value(
         #[cfg(target_os = "linux")]
         Some(Function::HasCapability) => {
             if let Some(entry) = entry {
-                if let Ok(file) = File::open(entry.path()) {
-                    if let Ok(Some(caps_xattr)) = file.get_xattr("security.capability") {
-                        let caps_string = crate::util::capabilities::parse_capabilities(caps_xattr);
-                        return Variant::from_bool(caps_string.contains(&function_arg));
-                    }
+                if let Ok(Some(caps_xattr)) = xattr::get(entry.path(), "security.capability") {
+                    let caps_string = crate::util::capabilities::parse_capabilities(caps_xattr);
+                    return Variant::from_bool(caps_string.contains(&function_arg));
                 }
             }
 
